@@ -306,7 +306,7 @@ func main() {
 					atomic.AddInt64(&failedOK, 1)
 				}
 				if got != w {
-					if atomic.AddInt64(&mismatch, 1) <= 10 {
+					if atomic.AddInt64(&mismatch, 1) <= 4 {
 						vhlib.Fail("Isolated", "a concurrent render differs from the same render alone",
 							map[string]any{"goroutine": g, "render": m, "job": j.String(), "alone": w, "concurrent": got, "goroutines": G})
 					}
